@@ -390,9 +390,16 @@ func (w *verifC02World) resolve(fate int) bool {
 		}
 	case verifC02FateAnswered, verifC02FateAnswerLost, verifC02FateTimeoutApp:
 		if p.hasRecs {
+			prevEpoch, n0 := w.g.epoch, len(w.g.log)
 			code, base = w.g.process(p.gb, p.epoch, p.first, p.n)
-			if code != 0 && head && !w.allowCancel && !w.injected {
+			// Before the broker invents an error, and again for everything sent under the
+			// client's current (bumped) epoch, the client's numbering is never refused.
+			if code != 0 && head && !w.allowCancel && (!w.injected || p.epoch == w.idState().epoch) {
 				verifFail("the client's own numbering never earns a sequence or epoch error on the partition's head batch")
+			}
+			if code == 0 && w.injected && p.epoch != prevEpoch && len(w.g.log) > n0 {
+				verifAssert(p.first == 0 && head, "after a producer epoch bump the partition restarts with its head batch at sequence 0")
+				verifReached("c02-epoch-restart")
 			}
 		} else {
 			code = kerr.CorruptMessage.Code // null records: nothing to append
@@ -593,6 +600,8 @@ func (w *verifC02World) final() {
 	}
 }
 
+func (w *verifC02World) idState() *producerID { return w.cl.producer.id.Load().(*producerID) }
+
 func (w *verifC02World) head() *verifC02GB {
 	if len(w.rb.batches) == 0 {
 		return nil
@@ -685,7 +694,9 @@ func VerifC02_cosim() {
 		)
 	}
 	sizes := shapes[verifChoose(len(shapes))]
-	fresh := verifChoose(2) == 0
+	// quick: three batches only mid-stream (a fresh partition cannot pipeline before its
+	// first acknowledgement, so the third batch adds little there)
+	fresh := (verifThorough() || len(sizes) < 3) && verifChoose(2) == 0
 	cf := confs[verifChoose(len(confs))]
 	verifC02Run(k, sizes, fresh, cf, false)
 }
